@@ -49,7 +49,7 @@ void print_custom_keyword_one(FILE *pfile)
 {
    const kw_pair &keyword_pair = g_pair;
    {
-//@slice src/keywords.cpp frag print_custom_keyword_one /^      E_Token tt = keyword_pair\.second;$/ /^   \}$/
+//@slice src/keywords.cpp frag print_custom_keyword_one /^      (const )?E_Token tt = keyword_pair\.second;$/ /^   \}$/
 }
 extern const unsigned CT_TYPE_V = CT_TYPE, CT_MACRO_OPEN_V = CT_MACRO_OPEN, CT_MACRO_CLOSE_V = CT_MACRO_CLOSE, CT_MACRO_ELSE_V = CT_MACRO_ELSE;
 extern unsigned *const PAIR_TOKEN = (unsigned *)&g_pair.second; extern const char *const PAIR_TEXT = &g_pair.first.tag;
